@@ -253,6 +253,45 @@ func TestC13(t *testing.T) {
 		}
 		r.Distinct(fmt.Sprintf("cmd %d", n))
 	}
+	// several commands encoded before any of them is decoded (what a leader does under concurrent adds and
+	// what a lagging follower sees): each must still decode to its own digests, and the bytes handed to
+	// raft must not change afterwards
+	{
+		var encoded [][]byte
+		var copies [][]byte
+		var want [][]hashing.Digest
+		for n := 0; n < 7; n++ {
+			var ds []hashing.Digest
+			for k := 0; k <= n%3; k++ {
+				ds = append(ds, digs[(n+k)%len(digs)])
+			}
+			data, err := consensus.VerifEncodeAddCommand(ds)
+			if err != nil {
+				r.Violation("replicated add command cannot be encoded", cs{What: "command-batch", I: uint64(n)})
+				continue
+			}
+			encoded = append(encoded, data)
+			copies = append(copies, append([]byte{}, data...))
+			want = append(want, ds)
+		}
+		for n := range encoded {
+			r.Eval(1)
+			if !bytes.Equal(encoded[n], copies[n]) {
+				r.Violation("the bytes of an encoded command change after later commands are encoded", cs{What: "command-batch", I: uint64(n)})
+			}
+			var out []hashing.Digest
+			var err error
+			pn, _ := ev.Catch(func() { out, _, err = consensus.VerifDecodeAddCommand(encoded[n]) })
+			ok := !pn && err == nil && len(out) == len(want[n])
+			for k := 0; ok && k < len(out); k++ {
+				ok = bytes.Equal(out[k], want[n][k])
+			}
+			if !ok {
+				r.Violation("a command decoded after later commands were encoded does not yield its own digests", cs{What: "command-batch", I: uint64(n)})
+			}
+			r.Distinct(fmt.Sprintf("cmdbatch %d", n))
+		}
+	}
 	big := []uint64{0, 1, 255, 256, 1 << 32, 1<<63 - 1, 1 << 63, ^uint64(0)}
 	for _, a := range big {
 		for _, b := range big {
